@@ -21,6 +21,7 @@ import (
 	"context"
 	"errors"
 	"fmt"
+	"github.com/libp2p/go-libp2p/core/routing"
 	"sort"
 	"strings"
 	"sync"
@@ -76,16 +77,18 @@ type c08Host struct {
 	addrs []ma.Multiaddr
 }
 
-func (h *c08Host) ID() peer.ID                                          { return h.id }
-func (h *c08Host) Peerstore() peerstore.Peerstore                       { return h.ps }
-func (h *c08Host) Addrs() []ma.Multiaddr                                { return h.addrs }
-func (h *c08Host) Network() network.Network                             { return h.net }
-func (h *c08Host) ConnManager() connmgr.ConnManager                     { return connmgr.NullConnMgr{} }
-func (h *c08Host) EventBus() event.Bus                                  { return h.bus }
-func (h *c08Host) SetStreamHandler(protocol.ID, network.StreamHandler)  {}
-func (h *c08Host) RemoveStreamHandler(protocol.ID)                      {}
-func (h *c08Host) Close() error                                         { return nil }
-func (h *c08Host) Connect(ctx context.Context, pi peer.AddrInfo) error  { return errors.New("c08: no dialing") }
+func (h *c08Host) ID() peer.ID                                         { return h.id }
+func (h *c08Host) Peerstore() peerstore.Peerstore                      { return h.ps }
+func (h *c08Host) Addrs() []ma.Multiaddr                               { return h.addrs }
+func (h *c08Host) Network() network.Network                            { return h.net }
+func (h *c08Host) ConnManager() connmgr.ConnManager                    { return connmgr.NullConnMgr{} }
+func (h *c08Host) EventBus() event.Bus                                 { return h.bus }
+func (h *c08Host) SetStreamHandler(protocol.ID, network.StreamHandler) {}
+func (h *c08Host) RemoveStreamHandler(protocol.ID)                     {}
+func (h *c08Host) Close() error                                        { return nil }
+func (h *c08Host) Connect(ctx context.Context, pi peer.AddrInfo) error {
+	return errors.New("c08: no dialing")
+}
 func (h *c08Host) SetStreamHandlerMatch(protocol.ID, func(protocol.ID) bool, network.StreamHandler) {
 }
 
@@ -240,6 +243,7 @@ type c08Case struct {
 	Case     int       `json:"case"`
 	Seed     uint64    `json:"seed"`
 	Dual     bool      `json:"dual"`
+	QEvents  bool      `json:"query_events,omitempty"` // the caller's context is registered for query events
 	Count    int       `json:"count"`
 	Shuffle  int       `json:"shuffle"` // 0 identity, 1 reverse, 2 rotate left by one
 	K        int       `json:"k"`
@@ -274,6 +278,7 @@ func c08PeerID(r *vfRand) peer.ID {
 func c08Gen(r *vfRand, idx int) *c08Case {
 	c := &c08Case{Case: idx, Takes: -1, CancelAt: -1}
 	c.Dual = r.Chance(35)
+	c.QEvents = r.Chance(30)
 	c.K = []int{1, 2, 3, 5, 20}[r.Intn(5)]
 	c.Alpha = 1 + r.Intn(3)
 	c.Beta = 1 + r.Intn(3)
@@ -296,8 +301,8 @@ func c08Gen(r *vfRand, idx int) *c08Case {
 	default:
 		c.Count = -1
 	}
-	nResp := r.Intn(16)     // responders: pool indexes 0..nResp-1
-	nProv := 1 + r.Intn(8)  // further peers that are only providers
+	nResp := r.Intn(16)    // responders: pool indexes 0..nResp-1
+	nProv := 1 + r.Intn(8) // further peers that are only providers
 	nPool := nResp + nProv
 	c.pool = make([]peer.ID, nPool)
 	for i := range c.pool {
@@ -487,6 +492,15 @@ func c08Run(t *testing.T, r *vfRand, c *c08Case) {
 	defer cancel()
 
 	var ch <-chan peer.AddrInfo
+	if c.QEvents {
+		// the caller subscribes to query events (as `ipfs dht findprovs -v` does); the events are drained
+		var events <-chan *routing.QueryEvent
+		ctx, events = routing.RegisterForQueryEvents(ctx)
+		go func() {
+			for range events {
+			}
+		}()
+	}
 	if c.Dual {
 		ch = (&DHT{WAN: nodes[0], LAN: nodes[1]}).FindProvidersAsync(ctx, key, c.Count)
 	} else {
@@ -607,6 +621,18 @@ func c08Run(t *testing.T, r *vfRand, c *c08Case) {
 		c.Dead = true
 		close(quit)
 		cancel()
+		synctest.Wait()
+	} else {
+		// the search is over for the caller.  Requests still in flight are answered now: a search
+		// that has really stopped asks nobody else on their account
+		for x := 0; x < 300; x++ {
+			synctest.Wait()
+			p := gate.Pending()
+			if len(p) == 0 {
+				break
+			}
+			gate.Release(p[r.Intn(len(p))])
+		}
 		synctest.Wait()
 	}
 	mu.Lock()
